@@ -523,6 +523,10 @@ Interval<To_Boundary, To_Info>::refine_universal(Relation_Symbol rel,
   switch (rel) {
   case LESS_THAN:
     {
+      if (Boundary_NS::is_boundary_infinity(LOWER, f_lower(x), f_info(x))) {
+        // x is unbounded from below: no value is in relation with all of its members.
+        return assign(EMPTY);
+      }
       if (lt(UPPER, upper(), info(), LOWER, f_lower(x), f_info(x))) {
         return combine(V_EQ, V_EQ);
       }
@@ -535,6 +539,10 @@ Interval<To_Boundary, To_Info>::refine_universal(Relation_Symbol rel,
     }
   case LESS_OR_EQUAL:
     {
+      if (Boundary_NS::is_boundary_infinity(LOWER, f_lower(x), f_info(x))) {
+        // x is unbounded from below: no value is in relation with all of its members.
+        return assign(EMPTY);
+      }
       if (le(UPPER, upper(), info(), LOWER, f_lower(x), f_info(x))) {
         return combine(V_EQ, V_EQ);
       }
@@ -546,6 +554,10 @@ Interval<To_Boundary, To_Info>::refine_universal(Relation_Symbol rel,
     }
   case GREATER_THAN:
     {
+      if (Boundary_NS::is_boundary_infinity(UPPER, f_upper(x), f_info(x))) {
+        // x is unbounded from above: no value is in relation with all of its members.
+        return assign(EMPTY);
+      }
       if (gt(LOWER, lower(), info(), UPPER, f_upper(x), f_info(x))) {
         return combine(V_EQ, V_EQ);
       }
@@ -558,6 +570,10 @@ Interval<To_Boundary, To_Info>::refine_universal(Relation_Symbol rel,
     }
   case GREATER_OR_EQUAL:
     {
+      if (Boundary_NS::is_boundary_infinity(UPPER, f_upper(x), f_info(x))) {
+        // x is unbounded from above: no value is in relation with all of its members.
+        return assign(EMPTY);
+      }
       if (ge(LOWER, lower(), info(), UPPER, f_upper(x), f_info(x))) {
         return combine(V_EQ, V_EQ);
       }
